@@ -1555,6 +1555,21 @@ func (fb *FB) withIntrinsic(t Lin, facts []Lin) []Lin {
 	var visit func(l Lin, d int)
 	visit = func(l Lin, d int) {
 		for k := range l.T {
+			// m = max(a, b, ...): m >= each argument; m = min(...): m <= each argument
+			if call, isCall := k.(*ssa.Call); isCall && !seen[call] {
+				if b, isB := call.Call.Value.(*ssa.Builtin); isB && (b.Name() == "max" || b.Name() == "min") && isIntType(call.Type()) {
+					seen[call] = true
+					msym := linSym(ssa.Value(call))
+					for _, a := range call.Call.Args {
+						if b.Name() == "max" {
+							out = append(append([]Lin{}, out...), msym.add(fb.lin(a), -1))
+						} else {
+							out = append(append([]Lin{}, out...), fb.lin(a).add(msym, -1))
+						}
+					}
+					continue
+				}
+			}
 			// r = bytes/strings.Index*(s, ...): -1 <= r <= len(s) - 1
 			if call, isCall := k.(*ssa.Call); isCall && !seen[call] {
 				if f := call.Call.StaticCallee(); f != nil && f.Pkg != nil && (f.Pkg.Pkg.Path() == "bytes" || f.Pkg.Pkg.Path() == "strings") &&
@@ -2163,6 +2178,15 @@ func hasQuo(t Lin) bool {
 	for k := range t.T {
 		if bo, ok := k.(*ssa.BinOp); ok && bo.Op == token.QUO {
 			return true
+		}
+		// symbols with intrinsic facts: search results, min/max
+		if call, ok := k.(*ssa.Call); ok {
+			if b, isB := call.Call.Value.(*ssa.Builtin); isB && (b.Name() == "min" || b.Name() == "max") {
+				return true
+			}
+			if f := call.Call.StaticCallee(); f != nil && f.Pkg != nil && (f.Pkg.Pkg.Path() == "bytes" || f.Pkg.Pkg.Path() == "strings") {
+				return true
+			}
 		}
 	}
 	return false
